@@ -10,7 +10,7 @@ import vtargets
 
 ID = 'C18'
 LEVEL = 'exploration'
-RULE = ('case = operation list of up to 8 steps over context ids {1,2,3} on the shard\\\'s real server: create(i, target_j, kwargs), create_duplicate(i), delete(i), '
+RULE = ('case = operation list of up to 8 steps over context ids {0,1,2,3} on the shard\\\'s real server: create(i, target_j, kwargs), create_duplicate(i), delete(i), '
         'delete_unknown(i) (protocol-level request for an id that is not registered), start_worker(i), start_worker_unknown(i), enqueue(worker, x), wait(worker); '
         'checked against a dictionary model id -> (target, kwargs, live workers). Oracle: create on a free id succeeds, on a taken id raises ValueError and leaves '
         'the first intact (workers started afterwards compute the first target); results of context workers equal target_j(x, **kwargs); delete(i) returns True, '
@@ -35,7 +35,7 @@ def shards(tier):
 
 
 def strategy(tier):
-    i = st.sampled_from([1, 1, 1, 2, 2, 3])
+    i = st.sampled_from([1, 1, 1, 2, 0, 0, 3])   # 0: a falsy but perfectly valid context id
     op = st.one_of(
         st.tuples(st.just('create'), i, st.sampled_from(['t1', 't2']), st.sampled_from([None, 5, 9])),
         st.tuples(st.just('create'), i, st.sampled_from(['t1', 't2']), st.sampled_from([None, 5, 9])),
